@@ -57,6 +57,11 @@ Definition run_case (c : jt) : jt :=
       | Some f, Some z => enc_res (s <- apply_numfn f z ;; Ok (jstr s))
       | _, _ => bad_case
       end
+  | JL [JN 4; nested] =>
+      match dec_rose_str nested with
+      | Some t => enc_res (s <- get_html_map t ;; Ok (jstr s))
+      | None => bad_case
+      end
   | _ => bad_case
   end.
 
